@@ -67,6 +67,10 @@ let qbox_of_tok t =
   | '2', [x0; y0; x1; y1] -> Box2 (x0, y0, x1, y1)
   | '3', [x0; y0; z0; x1; y1; z1] -> Box3 (x0, y0, z0, x1, y1, z1)
   | _ -> failwith "bad qbox"
+let tok_of_qbox = function
+  | NoBox -> "N"
+  | Box2 (x0, y0, x1, y1) -> "2:" ^ String.concat "," (List.map string_of_z [x0; y0; x1; y1])
+  | Box3 (x0, y0, z0, x1, y1, z1) -> "3:" ^ String.concat "," (List.map string_of_z [x0; y0; z0; x1; y1; z1])
 let pair_of_tok t = match zs ',' t with [a; b] -> (a, b) | _ -> failwith ("bad pair " ^ t)
 let levels_of_tok t =
   if t = "A" then LvAll else
@@ -119,10 +123,15 @@ let dispatch cmd a =
     let tbl = pts_of_tok a.(6) in
     let pts = lookup_pts tbl in
     let fuel = fuel_bound t in
-    (match query fuel t g qb hz0 hz1 q lv pts with
+    (* the query as one step of a history: the answer, and the caller's Bounds object after the call *)
+    let st = { s_tree = t; s_geom = g; s_hz0 = hz0; s_hz1 = hz1; s_grid = (fun _ -> q); s_lv = lv; s_pts = pts } in
+    let (caller, r) = query_st st qb in
+    let r0 = query fuel t g qb hz0 hz1 q lv pts in
+    (match r with
      | Ok ps -> "ok " ^ (if ps = [] then "-" else String.concat "," (List.map (fun p -> string_of_z p.p_tag) ps))
      | Err e -> "err " ^ err_name e)
     ^ " wf=" ^ tok_of_bool (wf_treeb t) ^ " ptsok=" ^ tok_of_bool (csys_okb c && pts_okb t c g hz0 hz1 pts)
+    ^ " caller=" ^ tok_of_qbox caller ^ " fresh=" ^ tok_of_bool (r = r0)
   | "res" ->
     (match level_range (LvRes (z_of_string a.(0), z_of_string a.(1), z_of_string a.(2), z_of_string a.(3))) with
      | Some (lo, hi) -> string_of_z lo ^ "," ^ string_of_z hi
@@ -132,7 +141,9 @@ let dispatch cmd a =
       | [o; s; c] -> { e_key = root_key; e_off = o; e_size = s; e_cnt = c } | _ -> failwith "bad node") (split ',' a.(0)) in
     let gs = groups (sort_off ns) in
     let pr l = if l = [] then "-" else String.concat "," (List.map (fun (x, y) -> string_of_z x ^ ":" ^ string_of_z y) l) in
+    (* queue: the order in which the http queue strategy writes the ranges when they come back last first *)
     "queries=" ^ pr (byte_queries gs) ^ " table=" ^ pr (chunk_table gs)
+    ^ " queue=" ^ pr (sort_q (List.rev (byte_queries gs))) ^ " apart=" ^ tok_of_bool (apartb (sort_off ns))
   | "rint" -> string_of_z (grid (z_of_string a.(0), z_of_string a.(1)))
   | _ -> "unknown-command " ^ cmd
 
